@@ -22,7 +22,7 @@ pub enum Case {
     /// the whole enumerated grid for one staging mode
     Grid { inmemory: bool, max_writes: u8 },
     /// one sequential interleaving
-    Seq { inmemory: bool, sizes: Vec<u32>, program: Program, prefix: u16 },
+    Seq { inmemory: bool, sizes: Vec<u32>, program: Program, prefix: u16, #[serde(default)] cap: u32 },
     /// producer and consumer on two threads with a seeded delay schedule
     Threaded {
         inmemory: bool,
@@ -36,6 +36,9 @@ pub enum Case {
         seed: u64,
         intensity: u8,
         prefix: u16,
+        /// the destination accepts at most this many bytes per write() call (0 = everything)
+        #[serde(default)]
+        cap: u32,
     },
 }
 
@@ -94,17 +97,23 @@ fn expect_dest(got: &[u8], prefix: &[u8], chunks: &[Vec<u8>], what: &str) -> Res
     Ok(())
 }
 
-fn run_seq(inmemory: bool, sizes: &[u32], program: Program, prefix: u16) -> Result<bool, String> {
+fn run_seq(inmemory: bool, sizes: &[u32], program: Program, prefix: u16, cap: u32) -> Result<bool, String> {
     mark_progress();
     let chunks = stream(sizes);
     let pre = prefix_bytes(prefix);
-    let dest = SharedSink::new();
+    let dest = SharedSink::short_writes(cap as usize);
     {
         let mut d = dest.clone();
         d.write_all(&pre).unwrap();
     }
     let (mut buf, mut writer) = TempFileBuffer::<SharedSink>::new(inmemory);
-    let what = format!("sizes {:?} {:?} staging={}", sizes, program, if inmemory { "memory" } else { "tempfile" });
+    let what = format!(
+        "sizes {:?} {:?} staging={} destination accepts {} per write()",
+        sizes,
+        program,
+        if inmemory { "memory" } else { "tempfile" },
+        if cap == 0 { "everything".to_string() } else { format!("<= {} bytes", cap) }
+    );
     let n = chunks.len();
     let mut staged_switch = false;
     let ready = |b: &TempFileBuffer<SharedSink>, expect: bool, when: &str| -> Result<(), String> {
@@ -188,11 +197,12 @@ fn run_threaded(
     seed: u64,
     intensity: u8,
     prefix: u16,
+    cap: u32,
 ) -> Result<(bool, bool), String> {
     mark_progress();
     let chunks = stream(sizes);
     let pre = prefix_bytes(prefix);
-    let dest = SharedSink::new();
+    let dest = SharedSink::short_writes(cap as usize);
     {
         let mut d = dest.clone();
         d.write_all(&pre).unwrap();
@@ -200,13 +210,14 @@ fn run_threaded(
     set_schedule(seed, intensity as u32);
     let (mut buf, mut writer) = TempFileBuffer::<SharedSink>::new(inmemory);
     let what = format!(
-        "threaded sizes {:?} staging={} switch_after={}us closed_write={} seed={} intensity={}",
+        "threaded sizes {:?} staging={} switch_after={}us closed_write={} seed={} intensity={} write-cap={}",
         sizes,
         if inmemory { "memory" } else { "tempfile" },
         switch_after_us,
         closed_write,
         seed,
-        intensity
+        intensity,
+        cap
     );
     let pchunks = chunks.clone();
     let producer = std::thread::spawn(move || -> Result<(), String> {
@@ -274,6 +285,11 @@ fn histories(max_writes: u8) -> Vec<Vec<u32>> {
     out
 }
 
+/// per-write() acceptance limit of the destination: mostly unlimited, else 1 byte .. 8 KiB
+fn cap() -> BoxedStrategy<u32> {
+    prop_oneof![5 => Just(0u32), 1 => Just(1u32), 1 => 2u32..64, 2 => select(vec![4096u32, 8192])].boxed()
+}
+
 impl Prop for C12 {
     type Case = Case;
     const ID: &'static str = "C12";
@@ -281,7 +297,7 @@ impl Prop for C12 {
     fn rule() -> String {
         "every shared-memory access of the staging buffer is one public call, so every concurrent execution of a legal program is a sequential interleaving of calls with the blocking call after the drop. \
          ENUMERATED exhaustively: producer histories of 0..=4 writes with sizes from {0,1,17,8192,70000} then drop (781 histories) x staging {memory, temp file} x consumer programs \
-         {switch at every position 0..=n+1 then await_real_file; expect_closed_write; len() then expect_closed_write}, readiness polled between all calls, destination pre-loaded with a prefix; \
+         {switch at every position 0..=n+1 then await_real_file; expect_closed_write; len() then expect_closed_write}, readiness polled between all calls, destination pre-loaded with a prefix, destination accepting everything or at most 4096 bytes per write() call (generated: 1 byte .. 8 KiB); \
          oracle: destination = prefix ++ writes, once, in order; len() = bytes written; ready <=> dropped. THREADED: the same programs on two threads, await started before the drop, seeded delay schedules at the \
          cfg(bigtools_verif) delay points, must also return within the deadline. GENERATED: histories with arbitrary sizes up to 200 kB. \
          non-trivial = the switch lands strictly between two writes with staged data present (sequential: by construction; threaded: hook counter); each enumerated interleaving is distinct by construction"
@@ -324,8 +340,10 @@ impl Prop for C12 {
             any::<u64>(),
             prop_oneof![1 => Just(0u8), 3 => 10u8..=100],
             0u16..40,
+            // every write() call of the producer passes the delay points: keep the number of calls small
+            prop_oneof![5 => Just(0u32), 3 => select(vec![4096u32, 8192])],
         )
-            .prop_map(|(inmemory, sizes, switch_after_us, poll, closed_write, seed, intensity, prefix)| Case::Threaded {
+            .prop_map(|(inmemory, sizes, switch_after_us, poll, closed_write, seed, intensity, prefix, cap)| Case::Threaded {
                 inmemory,
                 sizes,
                 switch_after_us,
@@ -334,6 +352,7 @@ impl Prop for C12 {
                 seed,
                 intensity,
                 prefix,
+                cap,
             });
         let seq = (
             any::<bool>(),
@@ -344,8 +363,9 @@ impl Prop for C12 {
                 1 => Just(Program::LenThenClosedWrite),
             ],
             0u16..40,
+            cap(),
         )
-            .prop_map(|(inmemory, sizes, program, prefix)| Case::Seq { inmemory, sizes, program, prefix });
+            .prop_map(|(inmemory, sizes, program, prefix, cap)| Case::Seq { inmemory, sizes, program, prefix, cap });
         prop_oneof![3 => threaded, 1 => seq].boxed()
     }
     fn fixed_cases(tier: Tier) -> Vec<Case> {
@@ -366,35 +386,40 @@ impl Prop for C12 {
                     programs.push(Program::ClosedWrite);
                     programs.push(Program::LenThenClosedWrite);
                     for p in programs {
-                        let prefix = (h.iter().sum::<u32>() % 7) as u16 * 3;
-                        let staged = run_seq(*inmemory, &h, p, prefix).map_err(|m| {
-                            obs.reduced = Some(
-                                serde_json::to_value(Case::Seq { inmemory: *inmemory, sizes: h.clone(), program: p, prefix }).unwrap(),
-                            );
-                            m
-                        })?;
-                        obs.evals += 1;
-                        if staged {
-                            obs.nt_extra += 1;
+                        // both a destination that takes everything and one that takes 4 KiB per write()
+                        for cap in [0u32, 4096] {
+                            let prefix = (h.iter().sum::<u32>() % 7) as u16 * 3;
+                            let staged = run_seq(*inmemory, &h, p, prefix, cap).map_err(|m| {
+                                obs.reduced = Some(
+                                    serde_json::to_value(Case::Seq { inmemory: *inmemory, sizes: h.clone(), program: p, prefix, cap }).unwrap(),
+                                );
+                                m
+                            })?;
+                            obs.evals += 1;
+                            if staged {
+                                obs.nt_extra += 1;
+                            }
                         }
                     }
                 }
                 obs.nontrivial = true;
                 Ok(())
             }
-            Case::Seq { inmemory, sizes, program, prefix } => {
+            Case::Seq { inmemory, sizes, program, prefix, cap } => {
                 obs.label(if *inmemory { "seq-memory" } else { "seq-tempfile" });
-                let staged = run_seq(*inmemory, sizes, *program, *prefix)?;
+                obs.label_if(*cap > 0, "destination-with-short-writes");
+                let staged = run_seq(*inmemory, sizes, *program, *prefix, *cap)?;
                 obs.label_if(staged, "switch-between-writes-with-staged-data");
                 obs.nontrivial = staged;
                 Ok(())
             }
-            Case::Threaded { inmemory, sizes, switch_after_us, poll, closed_write, seed, intensity, prefix } => {
+            Case::Threaded { inmemory, sizes, switch_after_us, poll, closed_write, seed, intensity, prefix, cap } => {
+                obs.label_if(*cap > 0, "destination-with-short-writes");
                 obs.label(if *inmemory { "threaded-memory" } else { "threaded-tempfile" });
                 obs.label_if(*intensity > 0, "delays-on");
                 obs.label_if(*closed_write, "threaded-closed-write");
                 let (before_first, after_staged) =
-                    run_threaded(*inmemory, sizes, *switch_after_us, *poll, *closed_write, *seed, *intensity, *prefix)?;
+                    run_threaded(*inmemory, sizes, *switch_after_us, *poll, *closed_write, *seed, *intensity, *prefix, *cap)?;
                 obs.label_if(before_first, "switch-seen-before-first-write");
                 obs.label_if(after_staged, "switch-seen-with-staged-data");
                 obs.nontrivial = after_staged;
